@@ -22,6 +22,7 @@ EXPLANATION = (
     ' Category strings of the data files must denote the same category however they are spaced: the tokenise rule of C05 is a clause here.'
     ' Third round: the mask builder is found by role; scores are assigned, never accumulated.'
     " Fourth round: the validation hands back the caller's own objects (no converted copies)."
+    ' Fifth round: every sentence of the batch reaches the token loop.'
 )
 TRUSTED = ['CPython ast', 'numpy boolean-mask assignment semantics', 'independent jsonnet-subset and category readers (sa/datafiles.py)']
 
